@@ -329,6 +329,8 @@ def builtin_value(fr, name, args, kw, n):
             return (name, tuple(C(k) for k in a0[1]))
         if a0[0] == 'map':
             return a0
+        if name == 'list' and term_kind(fr, a0) == 'list':
+            return a0                             # list(x) of a value documented / known to be a list: an equal list
         return T.call('list', (a0,))
     if name == 'dict':
         if not args:
@@ -383,6 +385,9 @@ def builtin_value(fr, name, args, kw, n):
         return ('exc', name)
     if name == 'type':
         return T.call('type', args)
+    if name == 'round' and len(args) == 1 and not kw:
+        # builtin round(x): the nearest integer (ties to even); the identity on integers
+        return args[0] if T.is_int(args[0]) else T.call('round', args)
     ctx.unmodelled.add(name)
     ctx.event('call', name, args, kw, guard=fr.guard(), loops=fr.loops, where=fr.where(n))
     return T.call(name, args, kw)
@@ -459,6 +464,14 @@ def term_kind(fr, t):
         return 'ndarray' if not (tag == 'map') else 'list'
     if tag == 'atom':
         return {'intarr': 'ndarray', 'arr': 'ndarray', 'boolarr': 'ndarray', 'table': 'df', 'dict': 'dict', 'list': 'list'}.get(t[2])
+    if tag == 'call' and not t[2]:
+        # a package call kept in bound-parameter form: the kind documented in its numpydoc Returns section
+        try:
+            fn = fr.ctx.model.find(t[1])
+        except Exception:
+            return None
+        rets = getattr(fn, 'retkinds', None) or []
+        return rets[0] if len(rets) == 1 else None
     return None
 
 
